@@ -11,7 +11,9 @@
 //
 //	open net maxFile cacheMax never|always writeRow0
 //	tx point|none skip torn nBlocks (hash data)* nKeys (key value)*      -> ok F O | crashed reopen ok F O | crashed reopen err
-//	flush point|none skip | crash | reopen | read nHashes h* nKeys k* | files | stats
+//	flush point|none skip | crash | reopen | knob cacheMax never|always | read nHashes h* nKeys k* | files | stats
+//
+// a value `del` in a tx line deletes the key.
 //
 // A blank in a crash point name is written "_".
 package main
@@ -179,7 +181,11 @@ func exec(t []string) string {
 		pos++
 		var kvs [][2][]byte
 		for i := 0; i < nk; i++ {
-			kvs = append(kvs, [2][]byte{bytesOf(t[pos]), bytesOf(t[pos+1])})
+			if t[pos+1] == "del" {
+				kvs = append(kvs, [2][]byte{bytesOf(t[pos]), nil})
+			} else {
+				kvs = append(kvs, [2][]byte{bytesOf(t[pos]), bytesOf(t[pos+1])})
+			}
 			pos += 2
 		}
 		crashed, err := dies(t[1], atoi(t[2]), atoi(t[3]), func() error {
@@ -188,7 +194,13 @@ func exec(t []string) string {
 				return err
 			}
 			for _, kv := range kvs {
-				if err := tx.Metadata().Put(kv[0], kv[1]); err != nil {
+				var err error
+				if kv[1] == nil {
+					err = tx.Metadata().Delete(kv[0])
+				} else {
+					err = tx.Metadata().Put(kv[0], kv[1])
+				}
+				if err != nil {
 					_ = tx.Rollback()
 					return err
 				}
@@ -219,6 +231,10 @@ func exec(t []string) string {
 		return "ok"
 	case "crash":
 		return reopenAfterCrash()
+	case "knob": // knob cacheMax never|always : change the cache limits of the open database
+		st.cacheMax, st.always = uint64(atoi(t[1])), t[2] == "always"
+		knobs()
+		return "ok"
 	case "reopen":
 		if err := st.db.Close(); err != nil {
 			panic("harness: close: " + err.Error())
@@ -313,7 +329,11 @@ func (o *ostate) expect(n int, hashes, keys []string) string {
 			blocks[h] = d
 		}
 		for k, v := range c.kvs {
-			kvs[k] = v
+			if v == "del" {
+				delete(kvs, k)
+			} else {
+				kvs[k] = v
+			}
 		}
 	}
 	var parts []string
@@ -351,7 +371,11 @@ func parseTx(t []string) commitRec {
 	nk := atoi(t[pos])
 	pos++
 	for i := 0; i < nk; i++ {
-		c.kvs[t[pos]] = hx.Hex(bytesOf(t[pos+1]))
+		if t[pos+1] == "del" {
+			c.kvs[t[pos]] = "del"
+		} else {
+			c.kvs[t[pos]] = hx.Hex(bytesOf(t[pos+1]))
+		}
 		pos += 2
 	}
 	return c
@@ -404,6 +428,8 @@ func oracle(t []string, out string) *hx.Violation {
 		}
 	case "crash":
 		o.crashed = true
+	case "knob":
+		o.always = t[2] == "always"
 	case "reopen":
 		if !o.crashed {
 			o.durable = len(o.hist)
@@ -464,7 +490,7 @@ func genHistory(g *hx.Gen) {
 	r := g.R
 	g.Emit("reset")
 	max := r.Pick(64, 200, 200, 4096)
-	cacheMax := r.Pick(0, 400, 400, 20971520)
+	cacheMax := r.Pick(0, 0, 400, 400, 20971520)
 	mode := "never"
 	if r.Chance(35) {
 		mode = "always"
@@ -501,11 +527,15 @@ func genHistory(g *hx.Gen) {
 				}
 				parts = append(parts, h, hx.Hex(r.Bytes(n)))
 			}
-			nk := r.Intn(3)
+			nk := r.Intn(4)
 			var kparts []string
 			for k := 0; k < nk; k++ {
 				seq++
-				kparts = append(kparts, keys[r.Intn(len(keys))], fmt.Sprintf("%04x%s", seq, hx.Hex(r.Bytes(2))))
+				if r.Chance(30) {
+					kparts = append(kparts, keys[r.Intn(len(keys))], "del")
+				} else {
+					kparts = append(kparts, keys[r.Intn(len(keys))], fmt.Sprintf("%04x%s", seq, hx.Hex(r.Bytes(2))))
+				}
 			}
 			g.Emit("tx %s %d %d %d %s %d %s", point, skip, torn, nb, strings.Join(parts, " "), nk, strings.Join(kparts, " "))
 		case x < 80:
@@ -514,8 +544,14 @@ func genHistory(g *hx.Gen) {
 				point = []string{"flush.afterSync", "commitTreaps.mid", "flush.afterCommit"}[r.Intn(3)]
 			}
 			g.Emit("flush %s %d", point, skip)
-		case x < 88:
+		case x < 86:
 			g.Emit("crash")
+		case x < 92:
+			m := "never"
+			if r.Chance(40) {
+				m = "always"
+			}
+			g.Emit("knob %d %s", r.Pick(0, 0, 400, 20971520), m)
 		default:
 			g.Emit("reopen")
 		}
